@@ -94,7 +94,8 @@ def run(rep, db, std=True):
                    it['id'], it['ty'], it.get('mutable'), it.get('freeze'), it.get('thread_local')),
                site=span_str(it.get('span')))
     # ---------------------------------------------------------------- the key
-    keys = [it for it in key_items(db) if '::__RUST_STD_INTERNAL_VAL' not in it['id']]
+    # storage is a static or a thread_local! key; a plain `const X: RoundingMode = ..` is a value, not a store
+    keys = [it for it in key_items(db) if '::__RUST_STD_INTERNAL_VAL' not in it['id'] and (it['kind'].startswith('Static') or 'LocalKey<' in it['ty'] or 'Cell<' in it['ty'])]
     key_ids = [k['id'] for k in keys]
     rep.ob('R-TLS-KEY', '%s;exactly-one-store' % cfg, len(keys) == 1,
            'items whose type mentions RoundingMode: %s' % [(k['id'], k['ty']) for k in keys])
@@ -126,13 +127,30 @@ def run(rep, db, std=True):
     # ---------------------------------------------------------------- who touches the key
     dflt = [f for f in ws_fns if f['impl'] and f['impl']['trait'] == 'core::default::Default' and f['impl']['self'] == RM and f['name'] == 'default']
     rep.ob('R-TLS-READ', '%s;default-exists' % cfg, len(dflt) == 1, 'impl Default for RoundingMode: %s' % [f['id'] for f in dflt])
+    def private_helpers(f, seen=None):
+        """private functions of the same crate that f calls (transitively): plumbing of the accessor, judged together with it"""
+        seen = seen if seen is not None else {}
+        for g in [f] + closures_of(db, f):
+            for b in _bodies(g):
+                for bi, t, _ in mir.iter_calls(b):
+                    fid = mir.callee(t)[0]
+                    h = db.fns.get(fid)
+                    if h is not None and fid not in seen and h['crate'] == f['crate'] and 'Public' not in str(h.get('vis')) and h['id'] != f['id']:
+                        seen[fid] = h
+                        private_helpers(h, seen)
+        return list(seen.values())
+    reader_helpers = set(h['id'] for f in dflt for h in private_helpers(f))
     setd = [f for f in ws_fns if f['crate'] == 'fpdec_core' and f['kind'] == 'AssocFn' and f['impl'] and f['impl']['trait'] is None
-            and f['impl']['self'] == RM and refs_key(db, f, key_ids) ]
+            and f['impl']['self'] == RM and refs_key(db, f, key_ids) and f['id'] not in reader_helpers]
     allowed = set()
     for f in dflt + setd:
         allowed.add(f['id'])
         for c in closures_of(db, f):
             allowed.add(c['id'])
+        for h in private_helpers(f):
+            allowed.add(h['id'])
+            for c in closures_of(db, h):
+                allowed.add(c['id'])
     for f in ws_fns:
         if f['id'].startswith(key['id'] + '::'):
             continue
@@ -143,6 +161,8 @@ def run(rep, db, std=True):
     if len(dflt) == 1:
         f = dflt[0]
         group = [f] + closures_of(db, f)
+        for h in private_helpers(f):
+            group += [h] + closures_of(db, h)
         bad = []
         for g in group:
             for b in _bodies(g):
